@@ -135,8 +135,8 @@ CHECKS = {
         "the comparisons, offsets, guards and lock structure of the model are regenerated from core/breaker.go and core/location.go on every run; the model is compared with the real code by white-box runs of "
         "slide()/Do() with exact clock readings, forced Throttle schedules, real-goroutine stress, capacity histories, and wall-clock scripts.",
    note="The rate bound is exact over 20*floor(interval/20) ns for any sequence of Do calls and Status/Summary polls; recovery after one window is proved for every polling pattern (breaker_recovers, breaker_recovery_bound, "
-        "graded bound with its trade-off witness) since the repair of slide() in /repo; construction guard and Throttle.pending exact under Disable toggles likewise. Remaining findings: SimpleBreaker disabled/open, capacity "
-        "check-then-add race. Timing on the wall clock is observed, not proved. Trusted: extractor (go/ast), monotone clock, sync.Mutex mutual exclusion, Go runtime. Data races are reached only by the -race search when the tie breaks.",
+        "graded bound with its trade-off witness) since the repair of slide() in /repo; construction guard and Throttle.pending exact under Disable toggles likewise. The capacity bound holds under any concurrency since the test and the addition are one step (capacity_concurrent, "
+        "all schedules; repaired in /repo). No finding remains listed for C20. Timing on the wall clock is observed, not proved. Trusted: extractor (go/ast), monotone clock, sync.Mutex mutual exclusion, Go runtime. Data races are reached only by the -race search when the tie breaks.",
    technique="Lean 4 proof (refinement to a ghost model; induction over call sequences and schedules) over a model built on definitions regenerated from the Go source + differential correspondence check", ref="5 (C20)"),
 }
 NOT_YET = {}
